@@ -37,20 +37,28 @@ pub struct Src {
     pub log: Option<Log>,
     pub tag: &'static str,
     pub calls: usize,
+    /// every n-th non-empty call fails with ErrorKind::Interrupted without consuming anything (0 = never)
+    pub interrupt_every: usize,
 }
 
 impl Src {
     pub fn new(data: Vec<u8>, chunks: &[usize], log: Option<Log>) -> Self {
-        Src { data: Arc::new(data), pos: 0, chunks: chunks.to_vec(), k: 0, log, tag: "Src", calls: 0 }
+        Src { data: Arc::new(data), pos: 0, chunks: chunks.to_vec(), k: 0, log, tag: "Src", calls: 0, interrupt_every: 0 }
     }
     pub fn shared(data: Arc<Vec<u8>>, chunks: &[usize], log: Option<Log>) -> Self {
-        Src { data, pos: 0, chunks: chunks.to_vec(), k: 0, log, tag: "Src", calls: 0 }
+        Src { data, pos: 0, chunks: chunks.to_vec(), k: 0, log, tag: "Src", calls: 0, interrupt_every: 0 }
     }
 }
 
 impl Read for Src {
     fn read(&mut self, buf: &mut [u8]) -> Result<usize> {
         self.calls += 1;
+        if self.interrupt_every > 0 && !buf.is_empty() && self.calls % self.interrupt_every == 0 {
+            if let Some(l) = &self.log {
+                l.push(json!({"op": "SrcInterrupted", "n": buf.len(), "ret": -1}));
+            }
+            return Err(std::io::Error::new(std::io::ErrorKind::Interrupted, "interrupted (injected)"));
+        }
         let mut cap = usize::MAX;
         if !self.chunks.is_empty() && !buf.is_empty() {
             let c = self.chunks[self.k % self.chunks.len()];
@@ -195,6 +203,7 @@ pub fn read_pattern<R: Read>(r: &mut R, sizes: &[usize], log: Option<&Log>, max_
     let mut buf = vec![0u8; maxn];
     let mut err = None;
     let mut after_eof_ok = true;
+    let mut interrupts = 0usize;
     loop {
         if calls >= max_calls {
             err = Some("call limit".to_string());
@@ -240,6 +249,10 @@ pub fn read_pattern<R: Read>(r: &mut R, sizes: &[usize], log: Option<&Log>, max_
                     break;
                 }
                 out.extend_from_slice(&buf[..m]);
+            }
+            Err(e) if e.kind() == std::io::ErrorKind::Interrupted && interrupts < 1_000_000 => {
+                interrupts += 1;
+                k -= 1; // same size again
             }
             Err(e) => {
                 err = Some(format!("{:?}: {}", e.kind(), e));
